@@ -526,6 +526,11 @@ structure EThr where
   rem : Nat
   deriving DecidableEq, Repr
 
+/-- first pc inside the critical section -/
+def ERole.entry : ERole → EPC
+  | .signaller => .inc
+  | .waiter => .check
+
 structure EState where
   mon : Mon
   thr : List EThr
@@ -551,8 +556,7 @@ def eexec (s : EState) : ELabel → Option EState
         match s.mon.lock i with
         | none => none
         | some m =>
-          some { s with mon := m,
-                        thr := s.thr.set i { th with pc := (match th.role with | .signaller => .inc | .waiter => .check) } }
+          some { s with mon := m, thr := s.thr.set i { th with pc := th.role.entry } }
       else none
   | .step i =>
     match s.thr[i]? with
